@@ -168,6 +168,9 @@ fn main() {
                 // after 1023 chunks each way the 10-bit sequence numbers have come round: the
                 // next chunk carries a smaller number than the acknowledgements still in flight
                 cfgs.push(Cfg { prefix_chunks: 1023, vsends: [1, 0], nsends: [0, 1], drops: 1, dups: 0, advances: 2, ..base.clone() });
+                // the environment refuses one datagram (a transient socket error): the call reports
+                // it, and progress must not depend on that datagram
+                cfgs.push(Cfg { faults: 1, vsends: [1, 0], nsends: [0, 1], drops: 0, dups: 0, advances: 3, ..base.clone() });
             }
             Tier::Thorough => {
                 cfgs.push(Cfg { vsends: [3, 0], drops: 1, dups: 1, ..base.clone() });
@@ -175,6 +178,7 @@ fn main() {
                 cfgs.push(Cfg { vsends: [1, 2], nsends: [1, 0], drops: 1, dups: 1, advances: 2, ..base.clone() });
                 cfgs.push(Cfg { prefix_chunks: 1023, vsends: [1, 1], nsends: [0, 1], drops: 1, dups: 1, advances: 2, ..base.clone() });
                 cfgs.push(Cfg { prefix_chunks: 1022, vsends: [2, 0], nsends: [0, 1], drops: 2, dups: 0, advances: 2, ..base.clone() });
+                cfgs.push(Cfg { faults: 2, vsends: [1, 1], nsends: [0, 1], drops: 1, dups: 0, advances: 3, ..base.clone() });
             }
         }
     }
